@@ -35,7 +35,8 @@ def main():
         print(out)
         return 2
     meta = {'seed': sid, 'property': prop, 'note': open(os.path.join(src, 'note.txt')).read()
-            if os.path.exists(os.path.join(src, 'note.txt')) else '', 'ran': {}}
+            if os.path.exists(os.path.join(src, 'note.txt')) else '', 'ran': {},
+            'verif_seed': os.environ.get('VERIF_SEED', 'default')}
     old_meta = os.path.join(src, 'meta.json')
     if not meta['note'] and os.path.exists(old_meta):
         meta['note'] = json.load(open(old_meta)).get('needs', '')
